@@ -504,9 +504,12 @@ class ArmiObject(metaclass=CompositeModelType):
         """
         if self.p.readOnly:
             raise RuntimeError(f"Cannot overwrite the parameters of read-only {self}.")
+        serialNum = self.p.serialNum
         self.p = other.p.__class__()
         for p, val in other.p.items():
             self.p[p] = val
+        # the serial number identifies this object, it is not state to take over
+        self.p.serialNum = serialNum
 
     def updateParamsFrom(self, new):
         """
@@ -518,6 +521,9 @@ class ArmiObject(metaclass=CompositeModelType):
             The object to copy params from
         """
         for paramName, val in new.p.items():
+            if paramName == "serialNum":
+                # the serial number identifies this object, it is not state to take over
+                continue
             self.p[paramName] = val
 
     def iterChildren(
